@@ -94,6 +94,13 @@ fn check_catalog_rows(
     rows: &[Vec<Value>],
 ) -> io::Result<()> {
     for values in rows.iter() {
+        if values.len() != columns.len() {
+            invalid_input!(
+                "Catalog table has {} columns, but its rows need {} values",
+                columns.len(),
+                values.len()
+            );
+        }
         for (column, value) in columns.iter().zip(values.iter()) {
             if !column.is_valid_value(value) {
                 invalid_input!(
